@@ -57,13 +57,14 @@ class EFLRItem:
 
         """
 
-        self.name = validate_string(name)    #: name of the item
-
         self._check_parent(parent)
         self._parent = parent  #: EFLRSet instance this item belongs to
-        self._parent.register_item(self)
 
         try:
+            self.name = validate_string(name)    #: name of the item
+
+            self._parent.register_item(self)
+
             #: origin reference value, common for records sharing origin
             self._origin_reference: Union[int, None] = self._validate_origin_reference(origin_reference,
                                                                                        allow_none=True)
@@ -77,7 +78,8 @@ class EFLRItem:
             self.set_attributes(**{k: v for k, v in kwargs.items() if v is not None})
 
         except Exception:
-            # the item could not be set up (e.g. an invalid attribute value was passed) - do not keep it in the set
+            # the item could not be set up (e.g. an invalid name or attribute value was passed) - do not keep it in the
+            # set (nor the set, if it was made for this item and is left empty)
             self._parent.unregister_item(self)
             raise
 
